@@ -38,6 +38,7 @@ def run(chk):
     if replayed < 50:
         raise ToolError("GEN replay ran only %d behaviours" % replayed)
     t = record("stream", chk.path("stream.ndjson"), n=240 if q else 3000, seed=chk.seed)
+    hang_violation(chk, t, "next_msg_frame in a streaming session")
     r = tv("Trace_Stream", "Trace_Stream.cfg", t, reset_events=("StreamInit",), shards=10, tag="C06")
     chk.add_tv("stream", r)
     report_rejects(chk, r, sig, lambda ev, d: "a recorded streaming session is not a behaviour of the Stream specification (first bad event: %s)" % json.dumps(ev)[:200])
